@@ -1,6 +1,8 @@
 (* Lmmx/Syntax.v — the core language of C02 beyond the first-order fragment Lmmm: tuples, records, let with tuple /
    record patterns, lambda, application of an arbitrary expression, assignment to (captured or local) variables,
-   sequencing, pipes, default arguments (named-argument calls), function names used as values.
+   sequencing, pipes, default arguments (named-argument calls), function names used as values; user sum types
+   (constructor application, `match` with literal / wildcard / constructor / tuple patterns) and `self` of any
+   first-order data type (the SHAPE the feedback cell is read at).
    Numbers are integers (exactly representable f64 values), as in Lmmm; operators, state cells and the delay
    read function are Lmmm's (Lmmm/Syntax.v, Lmmm/Ref.v).  Definitions only. *)
 From Coq Require Import List ZArith NArith Bool.
@@ -13,6 +15,22 @@ Inductive pat : Type :=
 | PWild
 | PTup (ps : list pat)
 | PRec (fs : list (ident * pat)).
+
+(* first-order data shapes (the type a multi-word `self` is read at): number, tuple, record (fields in canonical order),
+   declared sum type (name; per constructor the payload shape, None = no payload; the position is the run-time tag) *)
+Inductive shape : Type :=
+| SNum
+| STup (shs : list shape)
+| SRec (fs : list (ident * shape))
+| SSum (name : ident) (cs : list (option shape)).
+
+(* match patterns (cst_parser.rs parse_match_pattern):  0  1.0   _   Ctor  Ctor(x)  Ctor(_)  Ctor((x, (y, _)))   (m1, .., mn)
+   the payload of a constructor pattern is a BINDING pattern (variables, `_`, tuples of them): it always matches *)
+Inductive mpat : Type :=
+| MLit (z : Z)
+| MWild
+| MCon (tag : nat) (p : option pat)
+| MTup (ms : list mpat).
 
 Inductive xexpr : Type :=
 | XLit (z : Z)
@@ -35,7 +53,10 @@ Inductive xexpr : Type :=
 | XCallNamed (f : ident) (fs : list (ident * xexpr))   (* f({x1 = a1, ..}): missing parameters take their defaults *)
 | XPipe (a f : xexpr)                     (* a |> f *)
 | XAssign (x : ident) (e : xexpr)         (* x = e *)
-| XSeq (a b : xexpr).                     (* a ; b  (newline) *)
+| XSeq (a b : xexpr)                      (* a ; b  (newline) *)
+| XSelfS (sh : shape)                     (* `self` in a function whose return type has the shape sh (XSelf = XSelfS SNum) *)
+| XCon (tn : ident) (tag : nat) (arg : option xexpr)   (* constructor number `tag` of the declared sum type tn:  A   B(e) *)
+| XMatch (scrut : xexpr) (arms : list (mpat * xexpr)). (* match scrut { m1 => e1, .. }: the FIRST arm that matches *)
 
 (* global declarations, in source order *)
 Inductive gdecl : Type :=
@@ -55,7 +76,8 @@ Inductive val : Type :=
 | VTup (vs : list val)
 | VRec (fs : list (ident * val))
 | VClo (id : nat)                        (* reference to a closure INSTANCE of the world *)
-| VUnit.
+| VUnit
+| VCon (tag : nat) (v : val).            (* value of a sum type: constructor number and payload (VUnit when there is none) *)
 
 Inductive binding := BLoc (l : nat) | BFun (k : nat).   (* variable cell of the store / entry of the function table *)
 Definition xenv := list (ident * binding).
@@ -94,6 +116,7 @@ Definition E_PAT := 7%nat.
 Definition E_ASSIGN := 8%nat.
 Definition E_NODEFAULT := 9%nat.
 Definition E_DANGLING := 10%nat.
+Definition E_NOMATCH := 11%nat.          (* no arm of a match applies (exhaustiveness is the type checker's business) *)
 
 Fixpoint set_nth {A} (l : list A) (i : nat) (v : A) : list A :=
   match l, i with
@@ -170,3 +193,115 @@ Fixpoint bind_params_x (ps : list ident) (vs : list val) (r : xenv) (w : world) 
       end
   | _, _ => Stuck E_ARITY
   end.
+
+(* ---- match ---- *)
+(* does the value match the pattern? (literals compare numbers, constructors compare tags, tuples componentwise left to right) *)
+Fixpoint mtest (m : mpat) (v : val) {struct m} : res bool :=
+  match m with
+  | MLit z => match v with VNum z' => Ok (Z.eqb z z') | _ => Stuck E_PAT end
+  | MWild => Ok true
+  | MCon tag _ => match v with VCon tag' _ => Ok (Nat.eqb tag tag') | _ => Stuck E_PAT end
+  | MTup ms =>
+      match v with
+      | VTup vs =>
+          (fix go (ms : list mpat) (vs : list val) : res bool :=
+             match ms, vs with
+             | [], [] => Ok true
+             | m :: ms', v :: vs' =>
+                 match mtest m v with
+                 | Ok true => go ms' vs'
+                 | Ok false => Ok false
+                 | OutOfFuel => OutOfFuel
+                 | Stuck c => Stuck c
+                 end
+             | _, _ => Stuck E_PAT
+             end) ms vs
+      | _ => Stuck E_PAT
+      end
+  end.
+
+(* the binders of a pattern that matched: the payload patterns of its constructor patterns, left to right *)
+Fixpoint mbind (m : mpat) (v : val) (r : xenv) (w : world) {struct m} : res (xenv * world) :=
+  match m with
+  | MLit _ | MWild => Ok (r, w)
+  | MCon _ None => Ok (r, w)
+  | MCon _ (Some p) => match v with VCon _ pv => bind_pat p pv r w | _ => Stuck E_PAT end
+  | MTup ms =>
+      match v with
+      | VTup vs =>
+          (fix go (ms : list mpat) (vs : list val) (r : xenv) (w : world) : res (xenv * world) :=
+             match ms, vs with
+             | [], [] => Ok (r, w)
+             | m :: ms', v :: vs' =>
+                 match mbind m v r w with
+                 | Ok (r', w') => go ms' vs' r' w'
+                 | OutOfFuel => OutOfFuel
+                 | Stuck c => Stuck c
+                 end
+             | _, _ => Stuck E_PAT
+             end) ms vs r w
+      | _ => Stuck E_PAT
+      end
+  end.
+
+(* the first arm (counting from i) whose pattern matches *)
+Fixpoint find_arm (arms : list (mpat * xexpr)) (v : val) (i : nat) : res (nat * mpat * xexpr) :=
+  match arms with
+  | [] => Stuck E_NOMATCH
+  | (m, body) :: rest =>
+      match mtest m v with
+      | Ok true => Ok (i, m, body)
+      | Ok false => find_arm rest v (S i)
+      | OutOfFuel => OutOfFuel
+      | Stuck c => Stuck c
+      end
+  end.
+
+(* the state subtrees of the arms j, j+1, .., j+n-1 of a match after arm i ran and left kb: arm a owns child 1 + a of the
+   match node; the arms that were not taken keep theirs *)
+Fixpoint arm_kids (s : stree) (n j i : nat) (kb : stree) : list stree :=
+  match n with
+  | O => []
+  | S n' => (if Nat.eqb j i then kb else kid s (S j)) :: arm_kids s n' (S j) i kb
+  end.
+
+(* ---- the feedback cell of a call site / instance holds a VALUE ----
+   A data value is laid out over a state subtree like over machine words: a number is one cell, a tuple / record is the
+   sequence of its components, a sum is its tag cell followed by the payload.  `dec sh` reads a subtree back at a shape;
+   the never-touched subtree st0 reads as the all-zero value: 0, tuples / records of zero values, the FIRST constructor
+   with a zero payload.  (A tag that is not a constructor of the shape reads as the first constructor: never written by `enc`.) *)
+Definition self_of (s : stree) : Z := match cell_of s with CSelf z => z | _ => 0%Z end.
+
+Fixpoint enc (v : val) : stree :=
+  match v with
+  | VNum z => ST (CSelf z) []
+  | VTup vs => ST CNone (map enc vs)
+  | VRec fs => ST CNone (map (fun fv => enc (snd fv)) fs)
+  | VCon tag p => ST (CSelf (Z.of_nat tag)) [enc p]
+  | VClo _ | VUnit => st0
+  end.
+
+Fixpoint dec (sh : shape) (s : stree) {struct sh} : val :=
+  match sh with
+  | SNum => VNum (self_of s)
+  | STup shs =>
+      VTup ((fix go (l : list shape) (i : nat) : list val :=
+               match l with [] => [] | x :: l' => dec x (kid s i) :: go l' (S i) end) shs O)
+  | SRec fs =>
+      VRec ((fix go (l : list (ident * shape)) (i : nat) : list (ident * val) :=
+               match l with [] => [] | fx :: l' => (fst fx, dec (snd fx) (kid s i)) :: go l' (S i) end) fs O)
+  | SSum _ cs =>
+      let t := Z.to_nat (self_of s) in
+      let tag := if Nat.ltb t (length cs) then t else O in
+      VCon tag ((fix pick (l : list (option shape)) (n : nat) : val :=
+                   match l, n with
+                   | [], _ => VUnit
+                   | o :: _, O => match o with Some x => dec x (kid s 0) | None => VUnit end
+                   | _ :: l', S n' => pick l' n'
+                   end) cs tag)
+  end.
+
+(* the state of a call site / instance: the encoding of the value it returned last, with the state subtree of the body
+   as first child (for a number z: ST (CSelf z) [kb], as in Lmmm.ref_call) *)
+Definition self_node (v : val) (kb : stree) : stree := let '(ST c ks) := enc v in ST c (kb :: ks).
+Definition self_part (s : stree) : stree := let '(ST c ks) := s in ST c (tl ks).
